@@ -319,17 +319,18 @@ func Decode(input NodeEdgeChildren, outputStruct any) error {
 		if !ok {
 			g.KeyMaxInt = -1
 		}
+		// an empty p.Key is treated like "0"
+		index, err := 0, error(nil)
 		if p.Key != "" {
-			index, err := strconv.Atoi(p.Key)
-			if err != nil || index < 0 {
-				g.KeyNotIndex = p.Key
-			} else if index > g.KeyMaxInt && p.Tombstone%2 == 0 {
-				// Note: Do not set `KeyMaxInt` if Tombstone is set. We don't
-				// need to expand the slice in this case.
-				g.KeyMaxInt = index
-			}
+			index, err = strconv.Atoi(p.Key)
 		}
-		// else p.Key is treated like "0"; no need to update `g` at all
+		if err != nil || index < 0 {
+			g.KeyNotIndex = p.Key
+		} else if index > g.KeyMaxInt && p.Tombstone%2 == 0 {
+			// Note: Do not set `KeyMaxInt` if Tombstone is set. We don't
+			// need to expand the slice in this case.
+			g.KeyMaxInt = index
+		}
 		g.Points = append(g.Points, p)
 		pointGroups[p.Type] = g
 	}
@@ -338,13 +339,14 @@ func Decode(input NodeEdgeChildren, outputStruct any) error {
 		if !ok {
 			g.KeyMaxInt = -1
 		}
+		index, err := 0, error(nil)
 		if p.Key != "" {
-			index, err := strconv.Atoi(p.Key)
-			if err != nil || index < 0 {
-				g.KeyNotIndex = p.Key
-			} else if index > g.KeyMaxInt && p.Tombstone%2 == 0 {
-				g.KeyMaxInt = index
-			}
+			index, err = strconv.Atoi(p.Key)
+		}
+		if err != nil || index < 0 {
+			g.KeyNotIndex = p.Key
+		} else if index > g.KeyMaxInt && p.Tombstone%2 == 0 {
+			g.KeyMaxInt = index
 		}
 		g.Points = append(g.Points, p)
 		edgePointGroups[p.Type] = g
